@@ -12,6 +12,7 @@ import sys
 import time
 
 from . import digest as D
+from . import procs
 from . import gen as G
 from .shrink import ddmin
 
@@ -270,7 +271,7 @@ def minimise(world, ha, hb, workdir, inv, budget=90):
 def replay(path):
     with open(path) as f:
         doc = json.load(f)
-    wd = "/dev/shm/bbsim/c19.%07d" % os.getpid()
+    wd = os.path.join(procs.scratch_top(), "c19.%07d" % os.getpid())
     try:
         ha, hb = doc["hashseeds"]
         res, errs = run_servers([dict(doc["world"], verbose=True)], [ha, hb], wd, parallel=2, timeout=300)
@@ -302,7 +303,7 @@ def main(a, seed):
     hs = hash_seeds(seed, K)
     hs_all = hs + [hs[0]]          # one interpreter repeats a seed (non-hash nondeterminism)
     worlds = [gen_world(seed, i) for i in range(n)]
-    wd = "/dev/shm/bbsim/c19.%07d" % os.getpid()
+    wd = os.path.join(procs.scratch_top(), "c19.%07d" % os.getpid())
     harness = []
     try:
         results, errs = run_servers(worlds, hs_all, wd, parallel=a.workers)
